@@ -209,7 +209,14 @@ RetrySet ==
          : leg \in 1..3, sq \in seqs }
      \cup { StampedScript("stamped-" \o ToString(a), Scn(9800 + a, a, IF a = 3 THEN 4 ELSE a, 1, 3, 7, FALSE, 4, TRUE)) : a \in {1, 2, 3} }
 
+\* long command histories on one session per suite (IV freshness, sequence numbers): lengths cycle through 0..40
+LongSet ==
+  LET n == IF Full THEN 400 ELSE 60 IN
+  { Honest("long-" \o ToString(s[1]) \o "-" \o ToString(s[2]), Scn(9900 + s[1] * 10 + s[2], s[1], s[2], 1, 7, 11, (s[1] % 2) = 0, 4, TRUE),
+           [j \in 1..n |-> (j * 7 + Seed) % 41]) : s \in SupportedSuites }
+
 Scripts == CASE Family = "honest" -> HonestSet \cup NoneSet
+             [] Family = "long" -> LongSet
              [] Family = "mutate" -> MutateSet
              [] Family = "triples" -> TripleSet
              [] Family = "retry" -> RetrySet
